@@ -413,6 +413,20 @@ Definition sq_run (ops : list sop) : res (softq * list sout) := sq_run_from sq_n
 
 End WithV.
 
+Arguments q_nodeSize {V} q.
+Arguments q_listSize {V} q.
+Arguments q_frontIndex {V} q.
+Arguments q_rearIndex {V} q.
+Arguments q_frontNode {V} q.
+Arguments q_rearNode {V} q.
+Arguments q_heap {V} q.
+Arguments s_nodeSize {V} s.
+Arguments s_listSize {V} s.
+Arguments s_topIndex {V} s.
+Arguments s_topNode {V} s.
+Arguments sq_front {V} s.
+Arguments sq_rear {V} s.
+Arguments sq_list {V} s.
 Arguments n_block {V} n.
 Arguments n_next {V} n.
 Arguments SEnqueue {V} v.
